@@ -122,6 +122,26 @@ def run(tier, seed, out, drv, facts):
                               f"an array of dtype {r['canon']} ({label}) is {'accepted' if got == 'T' else 'rejected'} by {cname} but the documented hierarchy says {'accept' if req else 'reject'}", rep)
             elif mv is not None and (got == "T") != mv:
                 out.model_diff(f"dtype-name:{label}:{cname}", f"implementation {got} but the model of the dtype-name extraction says {mv}", rep)
+    # a category extended through `Shaped` — `Shaped[Cat[...], ""]`, `Shaped[Shaped[Cat[...], ""], ""]` — still accepts exactly
+    # the dtypes of `Cat` (nothing is added by a level that allows every dtype), for every dtype and library
+    wrap_cats = [c for c in ("Float32", "Float", "UInt8", "Int", "Bool", "Complex", "Inexact", "Num", "Integer", "BFloat16", "Key") if c in cats]
+    for ri, r in enumerate(rows):
+        if ri % 2:
+            continue
+        arr = r["make"]()
+        for cname in wrap_cats:
+            base = impl.check_once(arr, cats[cname][typing.Any, "..."])
+            try:
+                two = cats["Shaped"][cats[cname][typing.Any, "..."], ""]
+                three = cats["Shaped"][two, ""]
+                got = (impl.check_once(arr, two), impl.check_once(arr, three))
+            except Exception as e:  # noqa: BLE001
+                got = ("BUILD:" + type(e).__name__,) * 2
+            out.case(("wrapped", f"{r['backend']}:{r['alias']}", cname), True)
+            if got != (base, base):
+                out.violation(f"wrapped:{cname}:{r['backend']}", f"dtype {r['canon']} ({r['backend']}:{r['alias']}): {cname} answers {base}, Shaped[{cname}[…], ''] answers {got[0]}, "
+                              f"Shaped[Shaped[{cname}[…], ''], ''] answers {got[1]}: a level that allows every dtype must not change the accepted dtypes",
+                              {"dtype": r["canon"], "backend": r["backend"], "category": cname, "wrapped": True})
     # same dtype, different libraries: same verdict (also where the documentation is silent)
     by_canon = {}
     for r in rows:
